@@ -55,7 +55,7 @@ def run_case(case) -> Result:
     s0, q0, p0 = made
     n = q0.size
     # B must be evaluable at these positions
-    if specs["B"]["cls"] == "riem_softabs" and np.min(np.abs(np.linalg.eigvalsh(models["B"].dens.hess(q0)))) < 1e-6:
+    if specs["B"]["cls"] == "riem_softabs" and False:  # (zero Hessian eigenvalues are inside the domain since the SoftAbs repair)
         res.discarded = True
         return res
     pool = [s0]
@@ -96,9 +96,6 @@ def run_case(case) -> Result:
         nonlocal interesting
         system, spec = systems[which], specs[which]
         state = pool[idx]
-        if spec["cls"] in ("riem_softabs",) and np.min(np.abs(np.linalg.eigvalsh(
-                models[which].dens.hess(np.asarray(state.pos, dtype=float))))) < 1e-6:
-            return
         if spec["cls"] in zoo.CONSTRAINED:
             J = models[which].con.jac(np.asarray(state.pos, dtype=float))
             if np.linalg.cond(J @ models[which].Minv_const @ J.T) > 1e6:
@@ -251,9 +248,6 @@ def run_case(case) -> Result:
                 fail("read-only-modified", "a read-only copy changed value")
         elif kind in ("step", "transition"):
             if clsA in zoo.CONSTRAINED and not on_manifold[i]:
-                continue
-            if clsA == "riem_softabs" and np.min(np.abs(np.linalg.eigvalsh(
-                    models["A"].dens.hess(np.asarray(state.pos, dtype=float))))) < 1e-6:
                 continue
             tk = op.get("kind")
             seed = op.get("seed", 0)
